@@ -31,7 +31,7 @@ def showObs (s : State) : Obs → List String
   | .announce f => [s!"h.u{f}.done"]
   | .retire f => [s!"h.u{f}.published"]
   | .fetchBegin f c => [s!"g.u{f}.c{c}"]
-  | .fetchEnd f .cancelled => [s!"x.u{f}"]
+  | .fetchEnd f none => [s!"x.u{f}"]
   | .finish c o => [s!"fin.c{c}.{clsOf o (s.callers c).tok.payload.bytes}"]
   | _ => []
 
@@ -46,7 +46,7 @@ def actsFor (s : State) (st : Step) : List Act :=
      | .atSelect _ _ => [.wake st.id false, .wake st.id true]
      | _ => [])
   | "cancel" => [.cancel st.id]
-  | "resp" => [.respond st.id st.resp]
+  | "resp" => [.respond st.id st.ans]
   | "upd" => [.upd st.id]
   | _ => []
 
